@@ -90,6 +90,8 @@ def generate(rng, tier):
             cases.append(sc.gen_ring(rng))
     for i in range(40 if tier == "quick" else 1000):
         cases.append(sc.gen_sparse(rng))
+    for _ in range(10 if tier == "quick" else 200):
+        cases.append(sc.gen_ctrl_step(rng))   # step switched from outside (monitor only)
     # finam's own components with timedelta / calendar steps (monitor only)
     for _ in range(16 if tier == "quick" else 300):
         cases.append(bf.gen_builtin(rng))
@@ -155,7 +157,7 @@ classifiers = {
 
 
 def model_applies(case):
-    return "builtin" not in case
+    return "builtin" not in case and not sc.has_ctrl(case)
 
 
 def run_impl(case):
